@@ -107,6 +107,9 @@ func Commit(db *NoKV.DB, latches *latch.Manager, req *pb.CommitRequest) *pb.KeyE
 				return keyErrorRetryable(err)
 			}
 			if write != nil {
+				if write.Kind == pb.Mutation_Rollback {
+					return keyErrorAbort("transaction already rolled back")
+				}
 				continue
 			}
 			return keyErrorAbort("lock not found")
